@@ -67,6 +67,9 @@ def alphabet(world):
         for t in world.toks:
             a = STATED[t.name]
             out.append(Op(f"supply[{t.name}]", lambda c, t=t, a=a: do("supply", t, a, lambda: m.supply(t, a, True)), False, "supply"))
+            if t != aave.USDC:
+                # a supply that is not used as collateral accrues and is withdrawn exactly like any other
+                out.append(Op(f"supply[{t.name},nocoll]", lambda c, t=t, a=a: do("supply", t, a, lambda: m.supply(t, a, False)), True, "supply"))
             if t in m._supplies:
                 out.append(Op(f"withdraw[{t.name},part]", lambda c, t=t, a=a: do("withdraw", t, a / 3, lambda: m.withdraw(t, a / 3)), False, "withdraw"))
                 out.append(Op(f"withdraw[{t.name},None]", lambda c, t=t: do("withdraw", t, None, lambda: m.withdraw(t)), True, "withdraw"))
@@ -231,13 +234,21 @@ class Oracle:
 
         def run(seq):
             ctx.restore(snap)
-            for f in seq:
-                f()
-            r = ctx.raw()
+            try:
+                for f in seq:
+                    f()
+                r = ctx.raw()
+            except kit.REJECTIONS as e:  # the library refused an operation of the pair
+                r = {"rejected": f"{type(e).__name__}: {e}"[:160]}
             ctx.restore(snap)
             return r
 
         def same(r1, r2):
+            if "rejected" in r1 and "rejected" in r2:
+                part.count("differential_rejected")  # both sides of the pair are refused (e.g. a collateral flag that does not match the existing supply)
+                return True
+            if "rejected" in r1 or "rejected" in r2:
+                return False
             for sec in ("supplies", "borrows"):
                 a, b = r1["aave"][sec], r2["aave"][sec]
                 if set(a) != set(b):
@@ -268,6 +279,13 @@ class Oracle:
             if t in m._borrows:
                 d = m.get_borrow(t).amount
                 part.count("differentials")
+                if ctx.wallet().get(t.name, 0) > d * 2:
+                    # the wallet covers the debt twice over: repaying all of it, in one step or after a partial repayment, must be accepted and must close the debt
+                    for lab, seq in (("one-step", [lambda: m.repay(t)]), ("two-steps", [lambda: m.repay(t, d / 2), lambda: m.repay(t)])):
+                        r = run(seq)
+                        if "rejected" in r or t.name in r["aave"]["borrows"]:
+                            part.violation(f"C10|repay-all|{lab}", "repaying a whole debt that the wallet covers was refused or left the debt open", dict(case, token=t.name),
+                                           {"outcome": r.get("rejected", "debt still listed")})
                 r1 = run([lambda: m.repay(t, d / 3), lambda: m.repay(t, d / 4)])
                 r2 = run([lambda: m.repay(t, d / 3 + d / 4)])
                 if not same(r1, r2):
